@@ -3,6 +3,7 @@
 
 use bita_verif_harness as h;
 
+mod chunking;
 mod readers;
 
 fn main() {
@@ -24,6 +25,8 @@ fn main() {
         "c07" => rt.block_on(readers::c07(seed, thorough)),
         "c08-http" => rt.block_on(readers::c08_http(seed, thorough)),
         "c08-io" => rt.block_on(readers::c08_io(seed, thorough)),
+        "c09" => rt.block_on(chunking::c09(seed, thorough)),
+        "c10" => rt.block_on(chunking::c10(seed, thorough)),
         _ => {
             eprintln!("unknown suite {}", suite);
             std::process::exit(2);
